@@ -250,15 +250,30 @@ class LbDriver:
         self.keys = set(stim["keys"])
         self.optkey = "options" if self.embed == "top" else None
         self.nfile = 0
+        # WHEN the target language is named is not a configuration source: after `tl_after` source-giving calls on the builder (0 = first, as
+        # nnvg does; large = right before create()).  The effective configuration must not depend on it.
+        self.tl_after = stim.get("tl_after", 0)
+        self.nsrc, self.named = {}, set()
+
+    def _name_target(self, b, force=False):
+        if b not in self.named and (force or self.nsrc.get(b, 0) >= self.tl_after):
+            self.b[b].set_target_language(self.lang)
+            self.named.add(b)
+
+    def _source_call(self, b):
+        self._name_target(b)
+        self.nsrc[b] = self.nsrc.get(b, 0) + 1
 
     def wrap(self, obj):
         return {self.sec: obj} if self.embed == "top" else {self.sec: {"options": obj}}
 
     def new(self, b):
-        self.b[b] = self.nl.LanguageContextBuilder(include_experimental_languages=True).set_target_language(self.lang)
+        self.b[b] = self.nl.LanguageContextBuilder(include_experimental_languages=True)
         self.w[b] = {}
+        self._name_target(b)
 
     def upd(self, b, d, obj, via):
+        self._source_call(b)
         if via == "file":
             import yaml
 
@@ -276,6 +291,7 @@ class LbDriver:
         """add_config_files(f1, f2, ...): later files over earlier ones, one call"""
         import yaml
 
+        self._source_call(b)
         ps = []
         for o in objs:
             self.nfile += 1
@@ -289,6 +305,7 @@ class LbDriver:
                 p.unlink()
 
     def set(self, b, key, obj):
+        self._source_call(b)
         if self.embed == "top":
             self.b[b].set_target_language_configuration_override(key, obj)
         else:
@@ -296,6 +313,7 @@ class LbDriver:
             self.b[b].set_target_language_configuration_override("options", self.w[b])
 
     def create(self, b):
+        self._name_target(b, force=True)
         self.ctx.append(self.b[b].create())
         return len(self.ctx) - 1
 
@@ -791,9 +809,11 @@ def match_exp(e, o):
     return o[0] == e[0] and o[1].startswith("int:") and int(o[1][4:]) // 100 == e[1]
 
 
-def stim_from_group_case(case, observe="listing"):
+def stim_from_group_case(case, observe="listing", restd=None):
     """a case of ConfigMergeGroups.tla (shorthand, channel, which keys a lower source perturbs, which keys the selecting / a higher
-    source gives as well) -> a C++ history with the real option names"""
+    source gives as well) -> a C++ history with the real option names.
+    restd (channel "file" only): the options override, a HIGHER source than the file that names the shorthand, names another standard: the file's
+    shorthand is displaced like any other value, and with it its group (the T-layer takes the group of the standard in force)."""
     short = SHORTHANDS[case["sh"]]
     low = {GROUP_KEYS[k - 1]: given_value(short, GROUP_KEYS[k - 1]) for k in case["low"]}
     high = {GROUP_KEYS[k - 1]: given_value(short, GROUP_KEYS[k - 1], hi=True) for k in case["high"]}
@@ -816,10 +836,12 @@ def stim_from_group_case(case, observe="listing"):
         heap.append([["options", {"r": len(heap) - 1}]])
         docs.append({"root": {"r": len(heap) - 1}, "via": "file"})
         ops.append(["upd", 1, len(docs) - 1])
-        if high:
-            heap.append([[k, {"x": v}] for k, v in high.items()])
+        if high or restd:
+            heap.append([[k, {"x": v}] for k, v in high.items()] + ([["std", {"x": restd}]] if restd else []))
             docs.append({"root": {"r": len(heap) - 1}, "via": "api"})
             ops.append(["set", 1, "options", len(docs) - 1])
+            if restd:
+                meta["restd"] = restd
     else:   # the options override names the shorthand (and maybe one option of the group as well)
         heap.append([["std", {"x": short}]] + [[k, {"x": v}] for k, v in high.items()])
         docs.append({"root": {"r": len(heap) - 1}, "via": "api"})
@@ -830,6 +852,8 @@ def stim_from_group_case(case, observe="listing"):
 
 def group_case_matches(stim, res):
     """the symbolic expectation of the model, resolved with the documented table, against what the created language reports"""
+    if stim.get("restd"):
+        return True   # the model ConfigMergeGroups has no displaced shorthand: nothing to compare (the T-layer judges the run)
     if res["truncated"] or not res["obs"]:
         return False
     rep = res["obs"][-1]["rep"]
@@ -1044,6 +1068,8 @@ class Gen:
         stim = stim_from_group_case(case, observe=r.choice(["listing", "listing", "probe"]))
         stim["heap"][0] = [[k, {"x": v}] for k, v in low.items()]
         stim["low"] = low
+        if stim["level"] == "lb":
+            stim["tl_after"] = r.choice([0, 0, 1, 2, 99])
         return stim
 
     def cli(self, observe="listing", subprocess_=False):
@@ -1215,6 +1241,8 @@ def replay_model_cases(ctx, cases, plan, label):
         for level, via, lang, embed, every, off in plan:
             if i % every == off % every:
                 stims.append(stim_from_model(c, level, via, lang, embed))
+                if level == "lb":
+                    stims[-1]["tl_after"] = (0, 1, 99, 2)[len(stims) % 4]
                 meta.append(i)
     results = run_many(ctx, stims)
     for r in results:
@@ -1281,6 +1309,12 @@ def replay_group_cases(ctx, gcases):
     stims = []
     for i, c in enumerate(gcases):
         stims.append(stim_from_group_case(c))
+        if stims[-1]["level"] == "lb":   # the same sources with the target language named later (after 1, 2 source-giving calls / right before create())
+            stims.append(dict(stim_from_group_case(c), tl_after=(1, 2, 99)[i % 3]))
+            if c["chan"] == "file":     # ... and with the shorthand displaced by a higher source that names another standard
+                other = ("c++14", "c++17", "c++20", "c++17-pmr", "cetl++14-17")[i % 5]
+                if other != SHORTHANDS[c["sh"]]:
+                    stims.append(dict(stim_from_group_case(c, restd=other), tl_after=(0, 2, 1, 99)[i % 4]))
         if c["chan"] == "cli" and i % ctx.pick(6, 2) == 0:
             stims.append(stim_from_group_case(c, observe="probe"))
     results = run_many(ctx, stims)
@@ -1288,7 +1322,7 @@ def replay_group_cases(ctx, gcases):
         r["record"]["id"] = j
         ctx.count()
         c = stims[j]["group_case"]
-        ctx.distinct("g|%s|%s|%s|%s|%s|%s" % (stims[j]["short"], c["chan"], c["lowkind"], c["low"], c["high"], stims[j].get("cli", {}).get("observe")))
+        ctx.distinct("g|%s|%s|%s|%s|%s|%s|%s|%s" % (stims[j]["short"], c["chan"], c["lowkind"], c["low"], c["high"], stims[j].get("cli", {}).get("observe"), stims[j].get("tl_after", 0), stims[j].get("restd")))
     rej = judge(ctx, stims, results, what="language-standard shorthand case")
     ntr = 0
     for j, (st, r) in enumerate(zip(stims, results)):
